@@ -39,7 +39,7 @@ def tissue_params(draw, kinds=("voronoi", "moebius"), max_cells=24, min_cells=4,
             {"frac": st.floats(0.3, 0.95), "seed": st.integers(0, 2 ** 32 - 1)})))
     # sampling
     mode = draw(st.sampled_from(["const", "const", "per"]))
-    if kind in ("voronoi", "hex", "square", "brick"):
+    if kind in ("voronoi", "hex", "square", "brick", "triborder"):
         lo = n_int_min
     else:
         lo = max(1, n_int_min)       # a two-point chord of a curved arc is not an equilibrium interface
@@ -123,6 +123,18 @@ def build_base(p):
         return T.square_lattice(p["nx"], p["ny"])
     if kind == "brick":
         return T.brick_lattice(p["nx"], p["ny"])
+    if kind == "triborder":
+        # a polygonal triangular cell on the tissue border between two larger cells (all sides straight), optionally
+        # with a row of further cells below; corners jittered by the seed
+        rng = T.PRNG(p.get("seed", 0))
+        base = {"c": (0, 0), "a": (-1, 1), "b": (1, 1), "d": (0, -1.5), "l1": (-2, 0.4), "l2": (-1.2, -1),
+                "r1": (2, 0.4), "r2": (1.2, -1), "e": (0, -2.6), "l3": (-1.4, -2.3), "r3": (1.4, -2.3)}
+        P = {k: (x + float(rng.uniform(-0.12, 0.12)), y + float(rng.uniform(-0.12, 0.12))) for k, (x, y) in base.items()}
+        polys = [[P["c"], P["b"], P["a"]], [P["c"], P["a"], P["l1"], P["l2"], P["d"]],
+                 [P["c"], P["d"], P["r2"], P["r1"], P["b"]]]
+        if p.get("nx", 0) % 2:
+            polys += [[P["d"], P["l2"], P["l3"], P["e"]], [P["d"], P["e"], P["r3"], P["r2"]]]
+        return T._lattice_from_polys(polys, "triborder")
     raise ValueError(kind)
 
 
